@@ -595,4 +595,7 @@ ASSUMPTIONS = ['UB classes UBSan does not instrument are out of scope (strict al
                'kernel\'s own pointer arguments and are not enabled', 'float inputs are finite and not NaN', 'one optimisation pipeline is analysed; checks the optimiser removes are proved redundant by LLVM',
                'input boxes are the documented domains written as intervals; where the documentation is silent the box is a conservative sub-domain and the claim is limited to it']
 TRUSTED = ['clang 14 UBSan instrumentation (which operations get a check)', 'LLVM -O2 (removal of redundant checks)', 'tools/irtool.cc', 'laneflow interval domain and concrete term evaluator']
+# floors: one pooled count of decided obligations (the surviving sanitizer checks per kind move with every refactor of the library)
+FLOOR_GROUP = lambda rule: 'obligations'
+FLOOR_RATIO = 0.9
 LEVEL = 'other'
